@@ -246,9 +246,19 @@ impl Run {
     }
 }
 
+/// a block content of the pool, or (one time in six) a check whose scope names a public key, so that the
+/// token's key table grows along the run
+fn pick_code(rng: &mut StdRng) -> String {
+    if rng.gen_range(0..6) == 0 {
+        let k = keys::keypair(if rng.gen_bool(0.5) { "PK" } else { "PK2" }, if rng.gen_bool(0.5) { "ed" } else { "p256" }).public().print();
+        return format!("check if right(1) trusting {k};");
+    }
+    CODES[rng.gen_range(0..CODES.len())].to_string()
+}
+
 fn builder(rng: &mut StdRng) -> BlockBuilder {
-    let code = CODES[rng.gen_range(0..CODES.len())];
-    BlockBuilder::new().code(code).expect("code pool parses")
+    let code = pick_code(rng);
+    BlockBuilder::new().code(&code).expect("code pool parses")
 }
 
 pub fn record_run(run: usize, seed: u64) -> (Vec<Value>, HashMap<String, u32>) {
@@ -267,8 +277,8 @@ pub fn record_run(run: usize, seed: u64) -> (Vec<Value>, HashMap<String, u32>) {
             let ralg = if p256_ok && rng.gen_range(0..3) == 0 { "p256" } else { "ed" };
             let root = r.p.add_key(&format!("root{}_{}", run, nroots), ralg);
             let nk = r.fresh(&mut rng, p256_ok);
-            let code = CODES[rng.gen_range(0..CODES.len())];
-            let mut b = Biscuit::builder().code(code).unwrap();
+            let code = pick_code(&mut rng);
+            let mut b = Biscuit::builder().code(&code).unwrap();
             let rkid = if rng.gen_bool(0.3) { rng.gen_range(1..5u32) } else { 0 };
             if rkid > 0 {
                 b = b.root_key_id(rkid);
